@@ -207,7 +207,7 @@ _QUICK_CB = {
             "c09_range_json_int",
             "c00_value_json_neg_vs_uint", "c09_range_json_mixed"],
     "C02": ["c00_ident_cbor_uint_int", "c00_ident_cbor_nint_int", "c00_ident_cbor_number_float", "c00_ident_cbor_true_bool",
-            "c00_value_cbor_eq", "c00_value_cbor_lt", "c09_range_cbor_int"],
+            "c00_value_cbor_eq", "c00_value_cbor_lt", "c00_value_cbor_size", "c09_range_cbor_int"],
     "C04": ["c00_ident_json_uint_int", "c00_ident_cbor_uint_int", "c00_ident_json_nint_int", "c00_ident_cbor_nint_int",
             "c00_value_json_lt", "c00_value_cbor_lt", "c00_value_json_u64_gt", "c09_range_json_int", "c09_range_cbor_int",
             "c00_value_json_neg_vs_uint", "c09_range_json_mixed"],
